@@ -542,7 +542,7 @@ class State:
                     self.materialise(p)
                 del self.sym[p]
 
-    def kill_under(self, prefix, names=None, by_call=False):
+    def kill_under(self, prefix, names=None, by_call=False, probe=None):
         """forget facts about places strictly below/at `prefix`; with `names`, only those whose path below the
         prefix mentions one of the field names (callee mod summary).  Dirty entries of writes made by an analysed callee are
         3-tuples (prefix root, steps, names or None = everything)"""
@@ -599,6 +599,9 @@ class State:
                 if not hit(p):
                     self.materialise(p)
                 del self.sym[p]
+        if probe:
+            return [p for p in probe if hit(p)]
+        return []
 
     def copy_facts(self, src, dst):
         """struct move/copy: duplicate facts about places under `src` to `dst`"""
@@ -934,6 +937,12 @@ class State:
                             if isinstance(q[0], int) and q[0] > nparams and q[0] not in keep:
                                 keep.add(q[0])
                                 changed = True
+                elif len(ab) == 3 and ab[2] == "+" and isinstance(p[0], int) and not p[1]:
+                    # a dead temporary that witnesses a sum of two kept values (`if a + b > len {..}` ... `a += b`): what is
+                    # known about it is the only way the zone domain can say anything about a + b, so it stays while its operands do
+                    if all(x[1] is None or root_ok(term_place(x[1])[0]) for x in ab[:2]) and any(k[0] == ("v", p[0], ()) or k[1] == ("v", p[0], ()) for k in self.rel):
+                        keep.add(p[0])
+                        changed = True
 
         def dead_term(t):
             pl = term_place(t)
